@@ -98,6 +98,23 @@ def generate(tier):
             occ = [n for n in on_delta if _info(n)[0] == "o"]
             if len(occ) >= 2:
                 out.append((ds, tuple(occ[:2]), tuple(on_delta), "anti"))
+            # symmetric tensor with bra-ket antisymmetry of rank (3,3): after
+            # the substitution upper and lower hold the same indices with
+            # different multiplicities (not forced to zero)
+            plain_occ = [n for n in on_delta if _info(n) == ("o", "")]
+            if len(plain_occ) >= 3:
+                a, b, c = plain_occ[:3]
+                d = plain_occ[3] if len(plain_occ) > 3 else c
+                out.append((ds, (a, c, b), (a, b, d), "sym3"))
+    # rank-(3,3) symmetric tensor with bra-ket antisymmetry over i,j,k,l
+    # (independent of the pool): every set of 1..2 deltas between them
+    quad = ["i", "j", "k", "l"]
+    qpairs = list(itertools.combinations(quad, 2))
+    for nd in (1, 2):
+        for ds in itertools.combinations(qpairs, nd):
+            for T, Y in ((("i", "k", "j"), ("i", "j", "l")),
+                         (("i", "j", "k"), ("j", "k", "l"))):
+                out.append((tuple(ds), T, Y, "sym3"))
     return out
 
 
@@ -130,6 +147,9 @@ def _build(case):
             term = term * NonSymmetricTensor("x", gen.syms(T))
         if Y:
             term = term * NonSymmetricTensor("y", gen.syms(Y))
+    elif kind == "sym3":
+        from adcgen.sympy_objects import SymmetricTensor
+        term = term * SymmetricTensor("s", gen.syms(T), gen.syms(Y), -1)
     else:
         term = term * AntiSymmetricTensor("d", gen.syms(T), ())
         term = term * NonSymmetricTensor("y", gen.syms(Y))
